@@ -548,11 +548,17 @@ def real_inflight_probe(cls, slow_on_second, max_requests=2, d=2.5):
             ch = sorted(srv.children())
             return ch if ch and not (set(ch) & set(first)) else None
         out["new_worker"] = R.wait_for(replaced, 12)
-        c = conn(paths[0])
-        c.sendall(R.Client.request(d=0))
-        r2 = R.parse_response(read_all(c))
-        c.close()
-        out["after"] = {"status": r2["status"], "pid": r2.get("pid")}
+        # afterwards: both listeners still take clients (a refused connection IS the finding, not a harness problem)
+        out["after"] = {}
+        for k, path in enumerate(paths):
+            try:
+                c = conn(path)
+                c.sendall(R.Client.request(d=0))
+                r2 = R.parse_response(read_all(c))
+                c.close()
+                out["after"][k] = {"status": r2["status"], "pid": r2.get("pid")}
+            except OSError as e:
+                out["after"][k] = {"status": None, "error": "%s: %s" % (type(e).__name__, e)}
     except Exception as e:
         out["harness_error"] = "%s: %s | %s" % (type(e).__name__, e, srv.read_log()[-600:])
     finally:
@@ -573,8 +579,11 @@ def judge_real_inflight(res):
         fails.append("the request in flight was answered by pid %r, not by the worker that had it (%r)" % (sl["pid"], res["first_worker"]))
     if not res.get("new_worker"):
         fails.append("the worker that reached max_requests was not replaced within 12 s")
-    if res.get("after", {}).get("status") != 200:
-        fails.append("after the recycling a new request was not served: %r" % (res.get("after"),))
+    for k, a in sorted((res.get("after") or {}).items()):
+        if a.get("status") != 200:
+            fails.append("after the recycling a new request on listener %d was not served: %r" % (k, a))
+    if not res.get("after"):
+        fails.append("after the recycling no request could be attempted")
     return fails
 
 
